@@ -1,6 +1,7 @@
 package main
 
 import (
+	"unicode/utf8"
 	"encoding/json"
 	"fmt"
 	"reflect"
@@ -63,6 +64,21 @@ type c05T struct {
 
 func (t *c05T) add(name, f string, a ...interface{}) {
 	t.segs = append(t.segs, c05seg{name, fmt.Sprintf(f, a...)})
+	if c05Primer != "" {
+		// leave other bytes behind in the pooled buffers and scanner states before the next entry point runs
+		var v interface{}
+		sonic.ConfigStd.UnmarshalFromString(c05Primer, &v)
+		sonic.UnmarshalString(c05Primer, &v)
+		sonic.ValidString(c05Primer[:len(c05Primer)/2])
+	}
+}
+
+// c05Primer: when set, a document decoded between all entry points of a transcript ("pool history").
+var c05Primer string
+
+var c05Primers = []string{
+	"[" + strings.Repeat("12345678,", 150) + "9,\"\xff\"]",
+	"{\"k\":\"" + strings.Repeat("}]", 700) + "\xff\",\"z\":[[[[{}]]]]}",
 }
 
 // c05Doc: document-consuming entry points, called on the placed bytes themselves.
@@ -321,6 +337,29 @@ func c05Compare(c *Ctx, i int, arena *place.Arena, kind string, input string, r 
 		for k := range got.segs {
 			if got.segs[k] != base.segs[k] {
 				c.Violate(i, got.segs[k].name, "result depends on where the input lies / what follows it", map[string]interface{}{"placement": p.name, "input": q(input), "heap": base.segs[k].val, "placed": got.segs[k].val})
+			}
+		}
+	}
+	// the same bytes on the heap, with another history of the internal pools: what earlier calls left
+	// in pooled parse buffers and scanner states is "outside the input" as well
+	for k, primer := range c05Primers {
+		// (priced per entry point: only for short inputs that are not valid UTF-8 - the correcting
+		// paths copy into pooled buffers - and for one input in 16 otherwise)
+		if len(input) > 400 || (utf8.ValidString(input) && i%16 != 3) {
+			break
+		}
+		got := &c05T{c: c}
+		c.Cur("case %d kind=%s placement=heap,pools-primed-%d input=%q", i, kind, k, input)
+		c05Primer = primer
+		bad := c.Guard(i, kind+" APIs (pools primed)", func() { f(got, heap) })
+		c05Primer = ""
+		if bad || len(got.segs) != len(base.segs) {
+			continue
+		}
+		c.Count("placements_pool_history", 1)
+		for j := range got.segs {
+			if got.segs[j] != base.segs[j] {
+				c.Violate(i, got.segs[j].name, "result depends on what earlier calls left in the internal pools", map[string]interface{}{"primer": k, "input": q(input), "fresh": base.segs[j].val, "primed": got.segs[j].val})
 			}
 		}
 	}
